@@ -19,7 +19,7 @@ type zzReader struct {
 
 func zzCheckWire(b []byte, size, maxPS int, local uint32, want *rtp.Packet, wantPayload []byte, who string) {
 	zzAssert(len(b) <= maxPS, who+": transmitted packet <= MaxPacketSize")
-	zzAssert(len(b) == size, who+": transmitted size = header + CSRC + payload")
+	zzAssert(len(b) == size, who+": transmitted size = header + CSRC + payload + padding")
 	var got rtp.Packet
 	uerr := got.Unmarshal(b)
 	zzAssert(uerr == nil, who+": transmitted bytes are a valid RTP packet")
@@ -73,7 +73,7 @@ func ZzC18StreamWriteRTP() {
 	pkt.PayloadType = 96
 	want := *pkt
 	wantPayload := append([]byte(nil), pkt.Payload...)
-	size := 12 + 4*len(pkt.CSRC) + len(pkt.Payload)
+	size := zzWireSize(pkt)
 	err := ssf.writePacketRTP(pkt, time.Time{})
 	for _, r := range readers {
 		n, derr := r.w.ZzDrain()
@@ -121,7 +121,7 @@ func ZzC18SessionWriteRTP() {
 	pkt := zzPacket(P)
 	want := *pkt
 	wantPayload := append([]byte(nil), pkt.Payload...)
-	size := 12 + 4*len(pkt.CSRC) + len(pkt.Payload)
+	size := zzWireSize(pkt)
 	err := rsf.writePacketRTP(pkt, time.Time{})
 	n, derr := w.ZzDrain()
 	zzAssert(derr == nil, "queued writes run without error")
